@@ -93,6 +93,18 @@ def gen_cases(seed, tier):
     cases.append(dict(id="e_d5b", stores=["plain"], variant_order=["A", "B"], sort=None, indexes=[], finds=[],
                       props=[dict(variant=None, kind="u", name="c")],
                       entries=[dict(variant="A", values={"c": ("u", 1)}), dict(variant="B", values={"c": ("u", 300)})]))
+    # representation limits (D10, D11): counts stored in one byte. Beyond 255 the creation must fail;
+    # whatever is created must read back exactly ("never stored altered")
+    def flat(cid, nprops, nstores):
+        if nstores > 1:
+            props = [dict(variant=None, kind="a", name="p%d" % i, fixed=1, store=(i * 97) % nstores) for i in range(nprops)]
+        else:
+            props = [dict(variant=None, kind="u", name="p%d" % i) for i in range(nprops)]
+        ents = [dict(variant=None, values={q["name"]: (("u", (e * 7 + i) % 200) if q["kind"] == "u" else ("a", "x:%02x%02x%02x" % (e, i % 256, i // 256)))
+                                           for i, q in enumerate(props)}) for e in range(3)]
+        return dict(id=cid, stores=["plain"] * nstores, props=props, entries=ents, indexes=[("all", 0, 3)], finds=[], variant_order=[], sort=None, limit=True)
+    cases += [flat("lim_k255", 255, 1), flat("lim_k256", 256, 1), flat("lim_k300", 300, 1),
+              flat("lim_s255", 4, 255), flat("lim_s256", 4, 256), flat("lim_s300", 4, 300)]
     return cases
 
 
@@ -116,6 +128,9 @@ def run(tier, seed, replay=None):
         m = M.get(c["id"], [])
         exp = D.expected_dump(c)
         bad = None
+        if (c.get("limit") or c["id"].startswith("lim_")) and any(l.startswith("create CREATE_FAIL") for l in r):
+            kinds["creation refused (limit)"] = kinds.get("creation refused (limit)", 0) + 1
+            continue
         if not any(l == "create OK" for l in r):
             bad = "creation failed on a representable schema/entry set: %s" % (r[:2],)
         else:
